@@ -14,3 +14,6 @@ impl AddressFilter {
 //@|    ensures r == self.spec_matches(addr),
 }
 //@trusted AddressFilter::matches: assumed contract (external_body) in the accept-loop unit - its semantics is decided by Kani harnesses on the real code
+// the wildcard string parser: decided only by the bounded Kani harness of the thorough tier; in the quick tier it is guarded against change
+//@reviewed rodbus/src/server/address_filter.rs | FromStr for WildcardIPv4::from_str | tags=C16
+//@reviewed rodbus/src/server/address_filter.rs | get_byte | tags=C16
